@@ -593,7 +593,7 @@ Proof.
     simpl. apply ood_bind; [apply check_choices_ood|]. intros _ _.
     change (ok_or_diag (toks_fix cont)). rewrite toks_fix_eq. apply check_tokens_ood. exact H.
   - (* TJump *)
-    simpl. apply validate_single_call_ood.
+    simpl. destruct (String.eqb _ "@join"); [auto with ood|apply validate_single_call_ood].
 Qed.
 
 Lemma check_tokens_ood' : forall l, ok_or_diag (check_tokens pp is_call ps l).
@@ -610,8 +610,23 @@ End Walk.
 Lemma check_duplicate_ood : forall locs, ok_or_diag (check_duplicate_passages locs).
 Proof. intros. unfold check_duplicate_passages. destruct (existsb _ _); auto with ood. Qed.
 
+Lemma startable_ood : forall ps n, has_key n ps = true -> ok_or_diag (startable ps n).
+Proof.
+  intros ps n H. unfold startable, has_key in *. destruct (lookup n ps); [|discriminate].
+  destruct (existsb _ _); auto with ood.
+Qed.
+
+Lemma has_key_head0 : forall A k (p : A) r, has_key k ((k, p) :: r) = true.
+Proof. intros. unfold has_key. simpl. rewrite String.eqb_refl. reflexivity. Qed.
+
 Lemma determine_initial_ood : forall ps es, ok_or_diag (determine_initial_passage ps es).
-Proof. intros. unfold determine_initial_passage. repeat ood_step; auto with ood. Qed.
+Proof.
+  intros. unfold determine_initial_passage. destruct ps as [|[k p] r]; auto with ood.
+  assert (F : ok_or_diag (startable ((k, p) :: r) (if has_key "Start" ((k, p) :: r) then "Start" else k))).
+  { apply startable_ood. destruct (has_key "Start" ((k, p) :: r)) eqn:E; [exact E|apply has_key_head0]. }
+  destruct es as [s|]; auto. destruct (nonempty s); auto.
+  destruct (has_key s ((k, p) :: r)) eqn:E; [apply startable_ood; exact E|auto with ood].
+Qed.
 
 Lemma parse_good : forall lines, Good _ (parse pp is_call xs lines).
 Proof.
@@ -687,19 +702,41 @@ Definition follows_priority (ps : list (string * passage)) (es : option string) 
 Lemma has_key_head : forall A k (p : A) r, has_key k ((k, p) :: r) = true.
 Proof. intros. unfold has_key. simpl. rewrite String.eqb_refl. reflexivity. Qed.
 
+Lemma startable_spec : forall ps n j, startable ps n = POk j ->
+  j = n /\ exists p, lookup n ps = Some p /\
+                     existsb (fun q => match pdefault q with None => true | Some _ => false end) (params p) = false.
+Proof.
+  intros ps n j H. unfold startable in H. destruct (lookup n ps) as [p|]; [|discriminate].
+  destruct (existsb _ _) eqn:E; inversion H; subst. split; [reflexivity|]. exists p. auto.
+Qed.
+
 Lemma determine_initial_spec : forall ps es i,
   determine_initial_passage ps es = POk i -> has_key i ps = true /\ follows_priority ps es i.
 Proof.
   intros ps es i H. unfold determine_initial_passage in H. unfold follows_priority.
   destruct ps as [|[k p] r]; try discriminate.
-  assert (D : forall j, POk (if has_key "Start" ((k, p) :: r) then "Start" else k) = POk j ->
+  assert (D : forall j, startable ((k, p) :: r) (if has_key "Start" ((k, p) :: r) then "Start" else k) = POk j ->
               has_key j ((k, p) :: r) = true /\
               (if has_key "Start" ((k, p) :: r) then j = "Start" else exists p0 r0, (k, p) :: r = (j, p0) :: r0)).
-  { intros j Hj. inversion Hj; subst. destruct (has_key "Start" ((k, p) :: r)) eqn:E; auto.
+  { intros j Hj. apply startable_spec in Hj. destruct Hj as [-> _].
+    destruct (has_key "Start" ((k, p) :: r)) eqn:E; auto.
     split; [apply has_key_head|eauto]. }
   destruct es as [s|]; auto.
   destruct (nonempty s); auto.
-  destruct (has_key s ((k, p) :: r)) eqn:E; inversion H; subst; auto.
+  destruct (has_key s ((k, p) :: r)) eqn:E; [|discriminate].
+  apply startable_spec in H. destruct H as [-> _]. auto.
+Qed.
+
+(* the initial passage can be entered without arguments (fix 15f0a5b) *)
+Lemma determine_initial_startable : forall ps es i,
+  determine_initial_passage ps es = POk i ->
+  exists p, lookup i ps = Some p /\
+            existsb (fun q => match pdefault q with None => true | Some _ => false end) (params p) = false.
+Proof.
+  intros ps es i H. unfold determine_initial_passage in H.
+  destruct ps as [|[k p] r]; try discriminate.
+  destruct es as [s|]; [destruct (nonempty s); [destruct (has_key s ((k, p) :: r)); [|discriminate]|]|];
+    apply startable_spec in H; destruct H as [-> H]; exact H.
 Qed.
 
 (* --- keys are ids --- *)
@@ -945,7 +982,7 @@ Fixpoint targets_ok (ps : list (string * passage)) (t : token) {struct t} : Prop
       | Branch _ cont chs :: r => choices_targets_ok ps chs /\ toks cont /\ brs r
       end in
   match t with
-  | TJump tg _ => target_defined ps tg
+  | TJump tg _ => has_key tg ps = true              (* a jump cannot target @join (fix 3c6eb71) *)
   | TCond branches => brs branches
   | TLoop _ _ cont chs => choices_targets_ok ps chs /\ toks cont
   | _ => True
@@ -1012,7 +1049,12 @@ Proof.
     apply check_tokens_targets_aux; [exact H|].
     rewrite <- (toks_fix_eq pp is_call ps). exact E2.
   - (* TJump *)
-    simpl in E. eapply validate_single_call_target; eauto.
+    simpl in E. simpl.
+    match type of E with (if String.eqb ?tg "@join" then _ else _) = _ =>
+      destruct (String.eqb tg "@join") eqn:Ej; [discriminate|];
+      destruct (validate_single_call_target _ _ E) as [Hj|Hk]; [|exact Hk];
+      subst tg; discriminate
+    end.
 Qed.
 
 Lemma check_tokens_targets : forall l,
@@ -1072,6 +1114,15 @@ Proof.
   intros pp is_call xs lines0 story H. apply parse_inv in H.
   destruct H as [fs [H0 [_ [_ [_ [_ H]]]]]]. apply determine_initial_spec in H. destruct H as [H1 H2].
   split; auto. exists fs. split; auto.
+Qed.
+
+Lemma parse_ok_initial_startable_lemma : forall pp is_call xs lines0 story,
+  parse pp is_call xs lines0 = POk story ->
+  exists p, lookup (initial story) (passages story) = Some p /\
+            existsb (fun q => match pdefault q with None => true | Some _ => false end) (params p) = false.
+Proof.
+  intros pp is_call xs lines0 story H. apply parse_inv in H.
+  destruct H as [fs [_ [_ [_ [_ [_ H]]]]]]. apply determine_initial_startable in H. exact H.
 Qed.
 
 Lemma parse_ok_keys_lemma : forall pp is_call xs lines0 story,
@@ -1152,4 +1203,4 @@ Definition sample_oracle : pyparse :=
 
 Definition sample_lines : list string :=
   ["import random"; "@start Hall"; ":: Start"; "Hello {name} // greeting"; "~ x = 1";
-   "+ [Go {x ? now | later}] -> Hall(1) ^tag"; ":: Hall(n)"; "@render card(n)"; "-> Start"].
+   "+ [Go {x ? now | later}] -> Hall(1) ^tag"; ":: Hall(n=2)"; "@render card(n)"; "-> Start"].
